@@ -38,8 +38,8 @@ def plan(tier):
         return {"XLA_FLAGS": f"--xla_force_host_platform_device_count={k}"}
 
     if tier == "quick":
-        return dict(shards=16, examples=400, time_budget_s=600, min_nontrivial=40, env=env, shrink_cap_s=90)
-    return dict(shards=16, examples=6400, time_budget_s=3400, min_nontrivial=600, env=env)
+        return dict(shards=16, examples=400, time_budget_s=600, min_nontrivial=20, env=env, shrink_cap_s=90)
+    return dict(shards=16, examples=6400, time_budget_s=3400, min_nontrivial=240, env=env)
 
 
 def strategy(tier, shard):
